@@ -113,6 +113,30 @@ func init() {
 			ex.assert(a[0], strArg(a[1]))
 			return nil, true
 		},
+		"vInvariant": func(ex *Exec, _ *frame, _ *ssa.Function, a []Value) (Value, bool) {
+			// a white-box representation invariant that closes an inductive step: if it can
+			// fail, the induction is not closed and the run is inconclusive, not a violation
+			ex.flush()
+			ok := true
+			switch c := a[0].(type) {
+			case bool:
+				ok = c
+			case *Term:
+				if v, known := ex.known(c); known {
+					ok = v
+				} else if !ex.inPrefix() {
+					r, _ := ex.check(ex.tc.Not(c))
+					ok = r == Unsat
+					if ok {
+						ex.learn(c, true)
+					}
+				}
+			}
+			if !ok {
+				panic(abortPath{outInconclusive, "white-box invariant not preserved, the inductive step is not closed: " + strArg(a[1])})
+			}
+			return nil, true
+		},
 		"vAll": func(ex *Exec, _ *frame, _ *ssa.Function, a []Value) (Value, bool) {
 			var ts []*Term
 			for _, v := range a[0].([]Value) {
